@@ -1,12 +1,605 @@
 /-
-  Proofs/C03Range.lean — helper lemmas for the C03 property files.
+  Proofs/C03Range.lean — helper lemmas for Props/C03_Range.lean (reverse, rol / ror, set, invert).
+  Everything lives in the sub-namespace `BM.C03.Range`.
 -/
 import BitstringModel.Model.C03
 import BitstringModel.Proofs.C03
+import BitstringModel.Proofs.C03Core
 import Mathlib.Tactic.Ring
 import Mathlib.Tactic.Linarith
 import Mathlib.Data.List.Basic
-namespace BM.C03
-open BM
+namespace BM.C03.Range
+open BM BM.C03
 
-end BM.C03
+theorem validateSlice_cases (n : Nat) (s e : Option Int) :
+    (∃ a z, validateSlice n s e = .ok (a, z) ∧ a ≤ z ∧ z ≤ n) ∨ validateSlice n s e = .error .value := by
+  cases h : validateSlice n s e with
+  | ok p =>
+    obtain ⟨a, z⟩ := p
+    exact Or.inl ⟨a, z, rfl, validateSlice_ok h⟩
+  | error err =>
+    right
+    unfold validateSlice at h
+    simp only at h
+    split at h
+    · cases h
+    · injection h with h; rw [h]
+
+section sandwich
+variable {α : Type}
+
+theorem sw_length (l X : List α) (a z : Nat) (haz : a ≤ z) (hz : z ≤ l.length) (hX : X.length = z - a) :
+    (l.take a ++ X ++ l.drop z).length = l.length := by
+  simp; omega
+
+theorem sw_outside (l X : List α) (a z : Nat) (haz : a ≤ z) (hz : z ≤ l.length) (hX : X.length = z - a)
+    (i : Nat) (hi : i < a ∨ z ≤ i) : (l.take a ++ X ++ l.drop z)[i]? = l[i]? := by
+  rcases hi with hi | hi
+  · rw [List.append_assoc, List.getElem?_append_left (by simp; omega), List.getElem?_take, if_pos hi]
+  · rw [List.getElem?_append_right (by simp; omega), List.getElem?_drop]
+    congr 1
+    simp
+    omega
+
+theorem sw_inside (l X : List α) (a z : Nat) (haz : a ≤ z) (hz : z ≤ l.length) (hX : X.length = z - a)
+    (i : Nat) (h1 : a ≤ i) (h2 : i < z) : (l.take a ++ X ++ l.drop z)[i]? = X[i - a]? := by
+  rw [List.getElem?_append_left (by simp; omega), List.getElem?_append_right (by simp; omega)]
+  congr 1
+  simp
+  omega
+
+theorem sw_take (l X : List α) (a z : Nat) (haz : a ≤ z) (hz : z ≤ l.length) :
+    (l.take a ++ X ++ l.drop z).take a = l.take a := by
+  rw [List.append_assoc, List.take_left' (by simp; omega)]
+
+theorem sw_drop (l X : List α) (a z : Nat) (haz : a ≤ z) (hz : z ≤ l.length) (hX : X.length = z - a) :
+    (l.take a ++ X ++ l.drop z).drop z = l.drop z := by
+  rw [List.drop_left' (by simp; omega)]
+
+theorem sw_slc (l X : List α) (a z : Nat) (haz : a ≤ z) (hz : z ≤ l.length) (hX : X.length = z - a) :
+    slc (l.take a ++ X ++ l.drop z) a z = X := by
+  unfold slc
+  rw [List.append_assoc, List.drop_left' (by simp; omega), List.take_left' hX]
+
+theorem slc_getElem? (l : List α) (a z t : Nat) (ht : t < z - a) : (slc l a z)[t]? = l[a + t]? := by
+  unfold slc
+  rw [List.getElem?_take, if_pos ht, List.getElem?_drop]
+
+theorem rotl_length (mid : List α) (r : Nat) : (mid.drop r ++ mid.take r).length = mid.length := by
+  simp; omega
+
+theorem rotl_getElem? (mid : List α) (r : Nat) (hr : r ≤ mid.length) (j : Nat) (hj : j < mid.length) :
+    (mid.drop r ++ mid.take r)[j]? = mid[(j + r) % mid.length]? := by
+  by_cases h : j + r < mid.length
+  · rw [Nat.mod_eq_of_lt h, List.getElem?_append_left (by simp; omega), List.getElem?_drop]
+    congr 1; omega
+  · have e : (j + r) % mid.length = j + r - mid.length := by
+      rw [Nat.mod_eq_sub_mod (by omega), Nat.mod_eq_of_lt (by omega)]
+    rw [e, List.getElem?_append_right (by simp; omega), List.getElem?_take, if_pos (by simp; omega)]
+    congr 1; simp; omega
+
+theorem rotr_getElem? (mid : List α) (r : Nat) (hr : r ≤ mid.length) (j : Nat) (hj : j < mid.length) :
+    (mid.drop (mid.length - r) ++ mid.take (mid.length - r))[(j + r) % mid.length]? = mid[j]? := by
+  by_cases h : j + r < mid.length
+  · rw [Nat.mod_eq_of_lt h, List.getElem?_append_right (by simp; omega), List.getElem?_take,
+      if_pos (by simp; omega)]
+    congr 1; simp; omega
+  · have e : (j + r) % mid.length = j + r - mid.length := by
+      rw [Nat.mod_eq_sub_mod (by omega), Nat.mod_eq_of_lt (by omega)]
+    rw [e, List.getElem?_append_left (by simp; omega), List.getElem?_drop]
+    congr 1; omega
+
+theorem rotl_rotr (mid : List α) (r : Nat) :
+    (mid.drop r ++ mid.take r).drop (mid.length - r) ++ (mid.drop r ++ mid.take r).take (mid.length - r) = mid := by
+  rw [List.drop_left' (by simp), List.take_left' (by simp), List.take_append_drop]
+
+theorem rotr_rotl (mid : List α) (r : Nat) (hr : r ≤ mid.length) :
+    (mid.drop (mid.length - r) ++ mid.take (mid.length - r)).drop r ++
+      (mid.drop (mid.length - r) ++ mid.take (mid.length - r)).take r = mid := by
+  rw [List.drop_left' (by simp; omega), List.take_left' (by simp; omega), List.take_append_drop]
+
+theorem add_mod_toNat (j k m : Nat) : (j + k) % m = (j + k % m) % m := by
+  rw [Nat.add_mod, Nat.add_mod j (k % m), Nat.mod_mod]
+
+/-- list algebra of `_rol_msb0` -/
+theorem rol_list (l : List α) (a z r : Nat) (haz : a ≤ z) (hz : z ≤ l.length) (hr : r ≤ z - a) :
+    (l.take a ++ l.drop (a + r)).take (z - r) ++ slc l a (a + r) ++ (l.take a ++ l.drop (a + r)).drop (z - r) =
+      l.take a ++ ((slc l a z).drop r ++ (slc l a z).take r) ++ l.drop z := by
+  apply List.ext_getElem?
+  intro i
+  simp only [slc, List.getElem?_append, List.getElem?_take, List.getElem?_drop, List.length_append,
+    List.length_take, List.length_drop]
+  grind
+
+theorem ror_list (l : List α) (a z r : Nat) (haz : a ≤ z) (hz : z ≤ l.length) (hr : r ≤ z - a) :
+    (l.take (z - r) ++ l.drop (z - r + r)).take a ++ slc l (z - r) z ++ (l.take (z - r) ++ l.drop (z - r + r)).drop a =
+      l.take a ++ ((slc l a z).drop (z - a - r) ++ (slc l a z).take (z - a - r)) ++ l.drop z := by
+  apply List.ext_getElem?
+  intro i
+  simp only [slc, List.getElem?_append, List.getElem?_take, List.getElem?_drop, List.length_append,
+    List.length_take, List.length_drop]
+  grind
+
+end sandwich
+
+/-! ### reverse, rol, ror -/
+
+theorem spec_reverse_ok (l : Bits) (s e : Option Int) (a z : Nat) (hv : validateSlice l.length s e = .ok (a, z)) :
+    Spec.reverse l s e = .ok (l.take a ++ (slc l a z).reverse ++ l.drop z) := by
+  unfold Spec.reverse; rw [hv]
+
+theorem spec_reverse_err (l : Bits) (s e : Option Int) (hv : validateSlice l.length s e = .error .value) :
+    Spec.reverse l s e = .error .value := by
+  unfold Spec.reverse; rw [hv]
+
+theorem alg_reverse_eq (l : Bits) (s e : Option Int) : Alg.reverse l s e = Spec.reverse l s e := by
+  rcases validateSlice_cases l.length s e with ⟨a, z, hv, haz, hz⟩ | hv
+  · rw [spec_reverse_ok l s e a z hv]
+    unfold Alg.reverse
+    rw [hv]
+    simp only
+    split
+    · rename_i h
+      obtain ⟨rfl, rfl⟩ := h
+      simp [slc]
+    · rw [setSlice_nonneg _ _ a z haz hz]
+      rfl
+  · rw [spec_reverse_err l s e hv]
+    unfold Alg.reverse
+    rw [hv]
+
+theorem spec_rol_ok (l : Bits) (k : Int) (s e : Option Int) (a z : Nat) (hl : l ≠ []) (hk : 0 ≤ k)
+    (hv : validateSlice l.length s e = .ok (a, z)) :
+    Spec.rol l k s e = .ok (l.take a ++ ((slc l a z).drop (k.toNat % (z - a)) ++ (slc l a z).take (k.toNat % (z - a))) ++ l.drop z) := by
+  unfold Spec.rol
+  rw [if_neg (by simpa using hl), if_neg (by omega), hv]
+
+theorem spec_ror_ok (l : Bits) (k : Int) (s e : Option Int) (a z : Nat) (hl : l ≠ []) (hk : 0 ≤ k)
+    (hv : validateSlice l.length s e = .ok (a, z)) :
+    Spec.ror l k s e = .ok (l.take a ++ ((slc l a z).drop (z - a - k.toNat % (z - a)) ++
+      (slc l a z).take (z - a - k.toNat % (z - a))) ++ l.drop z) := by
+  unfold Spec.ror
+  rw [if_neg (by simpa using hl), if_neg (by omega), hv]
+
+/-- Inversion: a successful rotation has a non-empty bitstring, a non-negative amount and a valid range. -/
+theorem spec_rol_inv {l r : Bits} {k : Int} {s e : Option Int} (h : Spec.rol l k s e = .ok r) :
+    l ≠ [] ∧ 0 ≤ k ∧ ∃ a z, validateSlice l.length s e = .ok (a, z) ∧ a ≤ z ∧ z ≤ l.length := by
+  unfold Spec.rol at h
+  split at h
+  · cases h
+  split at h
+  · cases h
+  rename_i h1 h2
+  rcases validateSlice_cases l.length s e with ⟨a, z, hv, haz, hz⟩ | hv
+  · exact ⟨by intro h0; apply h1; simp [h0], by omega, a, z, hv, haz, hz⟩
+  · rw [hv] at h; cases h
+
+theorem spec_ror_inv {l r : Bits} {k : Int} {s e : Option Int} (h : Spec.ror l k s e = .ok r) :
+    l ≠ [] ∧ 0 ≤ k ∧ ∃ a z, validateSlice l.length s e = .ok (a, z) ∧ a ≤ z ∧ z ≤ l.length := by
+  unfold Spec.ror at h
+  split at h
+  · cases h
+  split at h
+  · cases h
+  rename_i h1 h2
+  rcases validateSlice_cases l.length s e with ⟨a, z, hv, haz, hz⟩ | hv
+  · exact ⟨by intro h0; apply h1; simp [h0], by omega, a, z, hv, haz, hz⟩
+  · rw [hv] at h; cases h
+
+theorem alg_delete (l : Bits) (r a : Nat) (h : a + r ≤ l.length) :
+    Alg._delete l r a = .ok (l.take a ++ l.drop (a + r)) := by
+  unfold Alg._delete
+  rw [← Int.natCast_add, delSlice_nonneg l a (a + r) (by omega) h]
+
+theorem alg_insert (l b : Bits) (p : Nat) (h : p ≤ l.length) :
+    Alg._insert l b p = .ok (l.take p ++ b ++ l.drop p) := by
+  unfold Alg._insert
+  rw [setSlice_nonneg l b p p (le_refl _) h]
+  rfl
+
+theorem alg_rol_eq (l : Bits) (k : Int) (s e : Option Int) (h : rotEmptyRange l k s e = false) :
+    Alg.rol l k s e = Spec.rol l k s e := by
+  unfold Alg.rol Spec.rol
+  split
+  · rfl
+  split
+  · rfl
+  rename_i h1 h2
+  unfold Alg._rol
+  rcases validateSlice_cases l.length s e with ⟨a, z, hv, haz, hz⟩ | hv
+  · rw [hv]
+    simp only
+    have hne : a ≠ z := by
+      unfold rotEmptyRange at h
+      rw [hv] at h
+      simp at h
+      exact h (by intro h0; apply h1; simp [h0]) (by omega)
+    rw [if_neg (by omega)]
+    have hr : k.toNat % (z - a) < z - a := Nat.mod_lt _ (by omega)
+    generalize k.toNat % (z - a) = r at hr
+    split
+    · rename_i h0
+      subst h0
+      simp only [List.drop_zero, List.take_zero, List.append_nil]
+      rw [take_slc_drop l a z haz]
+    · rw [alg_delete l r a (by omega)]
+      simp only
+      rw [alg_insert _ _ _ (by simp; omega)]
+      rw [rol_list l a z r haz hz (by omega)]
+  · rw [hv]
+
+theorem alg_ror_eq (l : Bits) (k : Int) (s e : Option Int) (h : rotEmptyRange l k s e = false) :
+    Alg.ror l k s e = Spec.ror l k s e := by
+  unfold Alg.ror Spec.ror
+  split
+  · rfl
+  split
+  · rfl
+  rename_i h1 h2
+  unfold Alg._ror
+  rcases validateSlice_cases l.length s e with ⟨a, z, hv, haz, hz⟩ | hv
+  · rw [hv]
+    simp only
+    have hne : a ≠ z := by
+      unfold rotEmptyRange at h
+      rw [hv] at h
+      simp at h
+      exact h (by intro h0; apply h1; simp [h0]) (by omega)
+    rw [if_neg (by omega)]
+    have hr : k.toNat % (z - a) < z - a := Nat.mod_lt _ (by omega)
+    generalize k.toNat % (z - a) = r at hr
+    split
+    · rename_i h0
+      subst h0
+      have hm : (slc l a z).length = z - a := slc_length_of_le l a z hz
+      simp only [Nat.sub_zero]
+      rw [List.drop_of_length_le (l := slc l a z) (by omega), List.take_of_length_le (l := slc l a z) (by omega),
+        List.nil_append, take_slc_drop l a z haz]
+    · rw [alg_delete l r (z - r) (by omega)]
+      simp only
+      rw [alg_insert _ _ _ (by simp; omega)]
+      rw [ror_list l a z r haz hz (by omega)]
+  · rw [hv]
+
+
+/-! ### `applyPrefix` -/
+
+/-- One step of the fold inside `Spec.applyPrefix`. -/
+def step (n : Nat) (f : Bits → Nat → Bits) (acc : Bits) (p : Int) : Bits :=
+  match PyL.normIdx n p with
+  | some j => f acc j
+  | none => acc
+
+theorem step_some {n : Nat} {f : Bits → Nat → Bits} {acc : Bits} {p : Int} {j : Nat} (h : PyL.normIdx n p = some j) :
+    step n f acc p = f acc j := by
+  unfold step; rw [h]
+
+theorem step_none {n : Nat} {f : Bits → Nat → Bits} {acc : Bits} {p : Int} (h : PyL.normIdx n p = none) :
+    step n f acc p = acc := by
+  unfold step; rw [h]
+
+/-- The outcome of "apply the longest valid prefix" for a store of length `n`. -/
+def prefixOutcome (n : Nat) (f : Bits → Nat → Bits) (l : Bits) (ps : List Int) : Outcome :=
+  ⟨if (ps.takeWhile fun p => (PyL.normIdx n p).isSome).length = ps.length then .ok .none else .error .index,
+   (ps.takeWhile fun p => (PyL.normIdx n p).isSome).foldl (step n f) l⟩
+
+theorem applyPrefix_eq (f : Bits → Nat → Bits) (l : Bits) (ps : List Int) :
+    Spec.applyPrefix f l ps = prefixOutcome l.length f l ps := rfl
+
+theorem prefixOutcome_nil (n : Nat) (f : Bits → Nat → Bits) (l : Bits) :
+    prefixOutcome n f l [] = ⟨.ok .none, l⟩ := by
+  simp [prefixOutcome]
+
+theorem prefixOutcome_cons_none (n : Nat) (f : Bits → Nat → Bits) (l : Bits) (p : Int) (ps : List Int)
+    (h : PyL.normIdx n p = none) : prefixOutcome n f l (p :: ps) = ⟨.error .index, l⟩ := by
+  simp [prefixOutcome, h]
+
+theorem prefixOutcome_cons_some (n : Nat) (f : Bits → Nat → Bits) (l : Bits) (p : Int) (ps : List Int) (j : Nat)
+    (h : PyL.normIdx n p = some j) : prefixOutcome n f l (p :: ps) = prefixOutcome n f (f l j) ps := by
+  simp [prefixOutcome, h, step_some h]
+
+theorem setLoop_eq (v : Bool) (n : Nat) (ps : List Int) (l : Bits) (hl : l.length = n) :
+    Alg.setLoop v l ps = prefixOutcome n (fun acc j => acc.set j v) l ps := by
+  induction ps generalizing l with
+  | nil => rw [prefixOutcome_nil]; rfl
+  | cons p ps ih =>
+    unfold Alg.setLoop PyL.setIndex
+    rw [hl]
+    cases h : PyL.normIdx n p with
+    | none => rw [prefixOutcome_cons_none _ _ _ _ _ h]
+    | some j =>
+      rw [prefixOutcome_cons_some _ _ _ _ _ j h]
+      exact ih _ (by rw [List.length_set, hl])
+
+theorem invertLoop_eq (n : Nat) (ps : List Int) (l : Bits) :
+    Alg.invertLoop n l ps = prefixOutcome n (fun acc j => acc.modify j (!·)) l ps := by
+  induction ps generalizing l with
+  | nil => rw [prefixOutcome_nil]; rfl
+  | cons p ps ih =>
+    unfold Alg.invertLoop
+    simp only
+    by_cases hc : 0 ≤ (if p < 0 then p + (n : Int) else p) ∧ (if p < 0 then p + (n : Int) else p) < (n : Int)
+    · rw [if_neg (not_not_intro hc)]
+      have h : PyL.normIdx n p = some (if p < 0 then p + (n : Int) else p).toNat := by
+        rw [Core.normIdx_some_iff']
+        split at hc <;> omega
+      rw [prefixOutcome_cons_some _ _ _ _ _ _ h]
+      exact ih _
+    · rw [if_pos hc]
+      have h : PyL.normIdx n p = none := by
+        rw [Core.normIdx_none_iff']
+        split at hc <;> omega
+      rw [prefixOutcome_cons_none _ _ _ _ _ h]
+
+theorem takeWhile_valid_eq_self {n : Nat} {ps : List Int} (h : ∀ p ∈ ps, PyL.normIdx n p ≠ none) :
+    (ps.takeWhile fun p => (PyL.normIdx n p).isSome) = ps := by
+  induction ps with
+  | nil => rfl
+  | cons p ps ih =>
+    have h0 := h p List.mem_cons_self
+    cases hh : PyL.normIdx n p with
+    | none => exact absurd hh h0
+    | some j =>
+      rw [List.takeWhile_cons, hh]
+      simp only [Option.isSome_some, if_true]
+      rw [ih (fun q hq => h q (List.mem_cons_of_mem _ hq))]
+
+theorem prefixOutcome_ret_ok_iff (n : Nat) (f : Bits → Nat → Bits) (l : Bits) (ps : List Int) :
+    (prefixOutcome n f l ps).ret = .ok .none ↔ ∀ p ∈ ps, PyL.normIdx n p ≠ none := by
+  induction ps generalizing l with
+  | nil => simp [prefixOutcome_nil]
+  | cons p ps ih =>
+    cases h : PyL.normIdx n p with
+    | none =>
+      rw [prefixOutcome_cons_none _ _ _ _ _ h]
+      simp [h]
+    | some j =>
+      rw [prefixOutcome_cons_some _ _ _ _ _ j h, ih]
+      simp [h]
+
+theorem prefixOutcome_ret_cases (n : Nat) (f : Bits → Nat → Bits) (l : Bits) (ps : List Int) :
+    (prefixOutcome n f l ps).ret = .ok .none ∨ (prefixOutcome n f l ps).ret = .error .index := by
+  unfold prefixOutcome
+  simp only
+  split
+  · exact Or.inl rfl
+  · exact Or.inr rfl
+
+theorem foldl_step_valid (n : Nat) (f : Bits → Nat → Bits) (ps : List Int) (l : Bits)
+    (h : ∀ p ∈ ps, PyL.normIdx n p ≠ none) :
+    ps.foldl (step n f) l = (ps.filterMap (PyL.normIdx n)).foldl f l := by
+  induction ps generalizing l with
+  | nil => rfl
+  | cons p ps ih =>
+    cases hh : PyL.normIdx n p with
+    | none => exact absurd hh (h p List.mem_cons_self)
+    | some j =>
+      rw [List.foldl_cons, List.filterMap_cons_some hh, List.foldl_cons, step_some hh]
+      exact ih _ (fun q hq => h q (List.mem_cons_of_mem _ hq))
+
+theorem prefixOutcome_valid (n : Nat) (f : Bits → Nat → Bits) (l : Bits) (ps : List Int)
+    (h : ∀ p ∈ ps, PyL.normIdx n p ≠ none) :
+    prefixOutcome n f l ps = ⟨.ok .none, (ps.filterMap (PyL.normIdx n)).foldl f l⟩ := by
+  unfold prefixOutcome
+  rw [takeWhile_valid_eq_self h, foldl_step_valid n f ps l h]
+  simp
+
+theorem prefixOutcome_length (n : Nat) (f : Bits → Nat → Bits) (hf : ∀ acc j, (f acc j).length = acc.length)
+    (l : Bits) (ps : List Int) : (prefixOutcome n f l ps).bits.length = l.length := by
+  induction ps generalizing l with
+  | nil => simp [prefixOutcome_nil]
+  | cons p ps ih =>
+    cases h : PyL.normIdx n p with
+    | none => rw [prefixOutcome_cons_none _ _ _ _ _ h]
+    | some j => rw [prefixOutcome_cons_some _ _ _ _ _ j h, ih, hf]
+
+theorem prefixOutcome_frame (n : Nat) (f : Bits → Nat → Bits)
+    (hf : ∀ acc j i, i ≠ j → (f acc j)[i]? = acc[i]?)
+    (l : Bits) (ps : List Int) (i : Nat) (hi : i ∉ ps.filterMap (PyL.normIdx n)) :
+    (prefixOutcome n f l ps).bits[i]? = l[i]? := by
+  induction ps generalizing l with
+  | nil => simp [prefixOutcome_nil]
+  | cons p ps ih =>
+    cases h : PyL.normIdx n p with
+    | none => rw [prefixOutcome_cons_none _ _ _ _ _ h]
+    | some j =>
+      rw [List.filterMap_cons_some h, List.mem_cons, not_or] at hi
+      rw [prefixOutcome_cons_some _ _ _ _ _ j h, ih _ hi.2, hf _ _ _ hi.1]
+
+theorem prefixOutcome_partial (n : Nat) (f : Bits → Nat → Bits) (l : Bits) (ps : List Int) (j : Nat)
+    (hj : j < ps.length)
+    (hvalid : ∀ k (hk : k < j), PyL.normIdx n (ps[k]'(by omega)) ≠ none)
+    (hbad : PyL.normIdx n ps[j] = none) :
+    prefixOutcome n f l ps = ⟨.error .index, (prefixOutcome n f l (ps.take j)).bits⟩ ∧
+    (prefixOutcome n f l (ps.take j)).ret = .ok .none := by
+  induction ps generalizing l j with
+  | nil => simp at hj
+  | cons p ps ih =>
+    cases j with
+    | zero =>
+      simp only [List.getElem_cons_zero] at hbad
+      rw [prefixOutcome_cons_none _ _ _ _ _ hbad, List.take_zero, prefixOutcome_nil]
+      exact ⟨rfl, rfl⟩
+    | succ j =>
+      have h0 := hvalid 0 (by omega)
+      simp only [List.getElem_cons_zero] at h0
+      cases h : PyL.normIdx n p with
+      | none => exact absurd h h0
+      | some q =>
+        rw [List.take_succ_cons, prefixOutcome_cons_some _ _ _ _ _ q h, prefixOutcome_cons_some _ _ _ _ _ q h]
+        apply ih _ j (by simpa using hj)
+        · intro k hk
+          have := hvalid (k + 1) (by omega)
+          simpa using this
+        · simpa using hbad
+
+
+theorem natToBits_zero (n : Nat) : natToBits n 0 = List.replicate n false := by
+  induction n with
+  | zero => rfl
+  | succ n ih =>
+    rw [natToBits, Nat.zero_div, ih, List.replicate_succ']
+    simp
+
+theorem natToBits_ones (n : Nat) : natToBits n (2 ^ n - 1) = List.replicate n true := by
+  induction n with
+  | zero => rfl
+  | succ n ih =>
+    have hp : 0 < 2 ^ n := Nat.pow_pos (by omega)
+    have h1 : (2 ^ (n + 1) - 1) / 2 = 2 ^ n - 1 := by rw [Nat.pow_succ]; omega
+    have h2 : (2 ^ (n + 1) - 1) % 2 = 1 := by rw [Nat.pow_succ]; omega
+    rw [natToBits, h1, h2, ih, List.replicate_succ']
+    simp
+
+theorem intToBits_zero (n : Nat) : intToBits n 0 = List.replicate n false := by
+  unfold intToBits
+  rw [Int.zero_emod, Int.toNat_zero, natToBits_zero]
+
+theorem intToBits_neg_one (n : Nat) : intToBits n (-1) = List.replicate n true := by
+  unfold intToBits
+  have hp : (0 : Int) < (2 : Int) ^ n := by positivity
+  have h : (-1 : Int) % (2 : Int) ^ n = (2 : Int) ^ n - 1 := by
+    rw [← Int.add_mul_emod_self_left (-1) ((2 : Int) ^ n) 1, Int.mul_one]
+    exact Int.emod_eq_of_lt (by omega) (by omega)
+  rw [h]
+  have h2 : ((2 : Int) ^ n - 1).toNat = 2 ^ n - 1 := by
+    have : (2 : Int) ^ n = ((2 ^ n : Nat) : Int) := by push_cast; rfl
+    rw [this]
+    omega
+  rw [h2, natToBits_ones]
+
+theorem foldl_set_getElem? {α} (idx : List Nat) (x : α) (l : List α) (i : Nat) (hi : i < l.length) :
+    (idx.foldl (fun acc i => acc.set i x) l)[i]? = if i ∈ idx then some x else l[i]? := by
+  induction idx generalizing l with
+  | nil => simp
+  | cons j js ih =>
+    rw [List.foldl_cons, ih _ (by rw [List.length_set]; exact hi)]
+    by_cases hm : i ∈ js
+    · simp [hm]
+    · by_cases hji : j = i
+      · subst hji
+        simp [hm, List.getElem?_set_self hi]
+      · have : ¬ i = j := fun h => hji h.symm
+        simp [hm, this, List.getElem?_set_ne hji]
+
+theorem foldl_modify_length {α} (idx : List Nat) (g : α → α) (l : List α) :
+    (idx.foldl (fun acc i => acc.modify i g) l).length = l.length := by
+  induction idx generalizing l with
+  | nil => rfl
+  | cons j js ih => rw [List.foldl_cons, ih, List.length_modify]
+
+theorem foldl_modify_not_getElem? (idx : List Nat) (l : Bits) (i : Nat) :
+    (idx.foldl (fun acc i => acc.modify i (!·)) l)[i]? =
+      if idx.count i % 2 = 1 then l[i]?.map (!·) else l[i]? := by
+  induction idx generalizing l with
+  | nil => simp
+  | cons j js ih =>
+    rw [List.foldl_cons, ih, List.count_cons, List.getElem?_modify]
+    by_cases hji : j = i
+    · subst hji
+      simp only [beq_self_eq_true, if_true]
+      by_cases hc : List.count j js % 2 = 1
+      · have : ¬ (List.count j js + 1) % 2 = 1 := by omega
+        rw [if_pos hc, if_neg this]
+        cases l[j]? <;> simp
+      · have : (List.count j js + 1) % 2 = 1 := by omega
+        rw [if_neg hc, if_pos this]
+        rfl
+    · have hb : (j == i) = false := by simpa using hji
+      simp only [hb, hji, if_false, Bool.false_eq_true, Nat.add_zero]
+      cases l[i]? <;> rfl
+
+
+/-! ### the `range` fast path of `set` -/
+
+theorem setRangeAsSlice_false_iff (l : Bits) (a b c : Int) (hc : c ≠ 0) :
+    setRangeAsSlice l a b c = false ↔
+      ((∀ p ∈ Py.rangeList a b c, PyL.normIdx l.length p ≠ none) ∧
+       PyL.slicePositions (some a) (some b) c l.length = (Py.rangeList a b c).filterMap (PyL.normIdx l.length)) := by
+  unfold setRangeAsSlice
+  have h1 : (c != 0) = true := by simpa using hc
+  rw [h1, Bool.true_and, Bool.not_eq_false', Bool.and_eq_true, List.all_eq_true, beq_iff_eq]
+  constructor
+  · rintro ⟨h2, h3⟩
+    refine ⟨fun p hp hn => ?_, h3⟩
+    have := h2 p hp
+    rw [hn] at this
+    simp at this
+  · rintro ⟨h2, h3⟩
+    refine ⟨fun p hp => ?_, h3⟩
+    cases hh : PyL.normIdx l.length p with
+    | none => exact absurd hh (h2 p hp)
+    | some j => rfl
+
+theorem alg_set_range_zero (l : Bits) (v : Bool) (a b : Int) :
+    Alg.set l v (.range a b 0) = ⟨.error .value, l⟩ := by
+  simp [Alg.set]
+
+theorem spec_set_range_zero (l : Bits) (v : Bool) (a b : Int) :
+    Spec.set l v (.range a b 0) = ⟨.error .value, l⟩ := by
+  simp [Spec.set, Spec.positions]
+
+theorem alg_set_range (l : Bits) (v : Bool) (a b c : Int) (hc : c ≠ 0) :
+    Alg.set l v (.range a b c) =
+      ⟨.ok .none, (PyL.slicePositions (some a) (some b) c l.length).foldl (fun acc i => acc.set i v) l⟩ := by
+  simp [Alg.set, hc, Alg.setRange, PyL.setSliceScalar, atomic]
+
+theorem spec_set_range (l : Bits) (v : Bool) (a b c : Int) (hc : c ≠ 0) :
+    Spec.set l v (.range a b c) = prefixOutcome l.length (fun acc j => acc.set j v) l (Py.rangeList a b c) := by
+  rw [← applyPrefix_eq]
+  simp [Spec.set, Spec.positions, hc]
+
+theorem set_range_eq (l : Bits) (v : Bool) (a b c : Int) (h : setRangeAsSlice l a b c = false) :
+    Alg.set l v (.range a b c) = Spec.set l v (.range a b c) := by
+  by_cases hc : c = 0
+  · subst hc
+    rw [alg_set_range_zero, spec_set_range_zero]
+  · obtain ⟨h1, h2⟩ := (setRangeAsSlice_false_iff l a b c hc).mp h
+    rw [alg_set_range l v a b c hc, spec_set_range l v a b c hc, prefixOutcome_valid _ _ _ _ h1, h2]
+
+theorem setRangeAsSlice_nonneg (l : Bits) (a b c : Int) (ha : 0 ≤ a) (hb0 : 0 ≤ b) (hc : 0 < c)
+    (hb : b ≤ (l.length : Int)) : setRangeAsSlice l a b c = false := by
+  rw [setRangeAsSlice_false_iff l a b c (by omega)]
+  have hmem : ∀ p ∈ Py.rangeList a b c, 0 ≤ p ∧ p < (l.length : Int) := by
+    intro p hp
+    unfold Py.rangeList at hp
+    rw [List.mem_map] at hp
+    obtain ⟨k, hk, rfl⟩ := hp
+    rw [List.mem_range] at hk
+    have := C01.rangeLen_pos_bounds a b c hc k hk
+    omega
+  refine ⟨fun p hp hn => ?_, ?_⟩
+  · rw [Core.normIdx_none_iff'] at hn
+    have := hmem p hp
+    omega
+  · have hfm : (Py.rangeList a b c).filterMap (PyL.normIdx l.length) = (Py.rangeList a b c).map Int.toNat := by
+      rw [← List.filterMap_eq_map]
+      apply List.filterMap_congr
+      intro p hp
+      have := hmem p hp
+      simp only [Function.comp]
+      rw [Core.normIdx_some_iff']
+      left
+      omega
+    rw [hfm]
+    unfold PyL.slicePositions
+    have hsi : Py.sliceIndices (some a) (some b) c l.length = (min a (l.length : Int), b, c) := by
+      have h1 : ¬ a < 0 := by omega
+      have h2 : ¬ b < 0 := by omega
+      have h3 : ¬ c < 0 := by omega
+      simp only [Py.sliceIndices, h1, h2, h3, if_false]
+      congr 2
+      omega
+    rw [hsi]
+    simp only
+    by_cases hle : a ≤ (l.length : Int)
+    · rw [min_eq_left hle]
+    · have e1 : Py.rangeLen (min a (l.length : Int)) b c = 0 := by
+        unfold Py.rangeLen
+        rw [if_pos hc, if_neg (by omega)]
+      have e2 : Py.rangeLen a b c = 0 := by
+        unfold Py.rangeLen
+        rw [if_pos hc, if_neg (by omega)]
+      simp [Py.rangeList, e1, e2]
+
+end BM.C03.Range
